@@ -270,3 +270,27 @@ class WrapInUxns:
         C.check(z3.BoolVal(r == f"WRAPPED-{case}"), f"{n}.post.C01.return_shape_is_kept_{case}", {"C01", "C20"}, "post")
         C.check(z3.BoolVal(all(e[1] is func and e[2] is rv for e in log)), f"{n}.post.C01.the_returned_value_itself_is_wrapped", {"C01"}, "post")
         return "return"
+
+
+class Reflected:
+    """tawazi/node/extend.py reflected(op): reflected(op)(a, b) == op(b, a) -- `cst OP result` is evaluated as Python
+    would (the constant stays the LEFT operand)"""
+
+    module = "tawazi.node.extend"
+    qualname = "reflected"
+    loops = {}
+
+    def run(self, f, case):
+        calls = []
+        a, b = SVal(C.fresh("a", Val)), SVal(C.fresh("b", Val))
+        res = SVal(C.fresh("op_result", Val))
+
+        def op(x_, y_):
+            calls.append((x_, y_))
+            return res
+
+        g = f(op)
+        r = g(a, b)
+        ok = len(calls) == 1 and calls[0][0] is b and calls[0][1] is a and r is res
+        C.check(z3.BoolVal(ok), "reflected.post.C01.reflected_operator_swaps_its_operands_back", {"C01"}, "post")
+        return "return"
